@@ -259,7 +259,10 @@ class ExtCommunity(Attribute):
             else:
                 LOG.warn('unknow bgp extended community for construct, type=%s, value=%s', item[0], item[1])
 
-        if ext_community_hex:
+        if len(ext_community_hex) > 255:
+            return struct.pack('!B', cls.FLAG + AttributeFlag.EXTENDED_LENGTH) + struct.pack(
+                '!B', cls.ID) + struct.pack('!H', len(ext_community_hex)) + ext_community_hex
+        elif ext_community_hex:
             return struct.pack('!B', cls.FLAG) + struct.pack(
                 '!B', cls.ID) + struct.pack('!B', len(ext_community_hex)) + ext_community_hex
         else:
